@@ -162,13 +162,15 @@ def trace_provider_mdib(mdib, sched: Scheduler):
     mdib._tr_lock = TracedLock(mdib._tr_lock, 'tr', sched)        # noqa: SLF001
     mdib.mdib_lock = TracedLock(mdib.mdib_lock, 'mdib', sched)
     base = mdib.__class__
-    store = {'v': mdib.mdib_version}
+    store = {'v': mdib.mdib_version, 'writes': 0}
+    mdib.__dict__['_verif_store'] = store     # 'writes' counts every write of the version, by traced and untraced threads
 
     def get_version(self):
         return store['v']
 
     def set_version(self, value):
         sched.point('wv')
+        store['writes'] += 1
         store['v'] = value
 
     def get_group(self):
